@@ -610,7 +610,8 @@ class RamStorage(Storage):
 
     def file_length(self, name):
         if name not in self.files:
-            raise NameError(name)
+            # See open_file()
+            raise IOError(errno.ENOENT, "No such file in RamStorage", name)
         return len(self.files[name])
 
     def file_modified(self, name):
